@@ -1330,6 +1330,81 @@ func nbtField(o *hx.Out, r *hx.Rng) {
 	}
 }
 
+// NBTField against the model of its counting wrappers and of the ErrEND rule (Model/C06.v r_nbtfield /
+// w_nbtfield; the NBT codec itself stays abstract there): case kinds
+//
+//	nbtw nil | nbtw <hex of Write call 1>,<hex of Write call 2>,...   impl: nbtw <all bytes> <n returned>
+//	nbtr <image hex> <tail hex> <cut>                                  impl: nbtr ok <n> <left> | nbtr err | nbtr panic
+//
+// For nbtw the harness records the Write calls the encoder makes through NBTField's countingWriter; the model
+// adds them up. For nbtr the model's decoder is "a root TagEnd raises ErrEND, anything else consumes exactly
+// the image" and the input is image[:len-cut] ++ tail (cut > 0: a truncated document, no tail).
+type chunkWriter struct{ chunks [][]byte }
+
+func (c *chunkWriter) Write(p []byte) (int, error) {
+	c.chunks = append(c.chunks, append([]byte{}, p...))
+	return len(p), nil
+}
+
+func nbtFieldModel(o *hx.Out, r *hx.Rng) {
+	emitW := func(cat string, v any) []byte {
+		var cw chunkWriter
+		n, err := pk.NBT(v).WriteTo(&cw)
+		var hs []string
+		var all []byte
+		for _, c := range cw.chunks {
+			hs = append(hs, hexs(c))
+			all = append(all, c...)
+		}
+		cl := "nbtw nil"
+		if v != nil {
+			cl = "nbtw " + strings.Join(hs, ",")
+		}
+		line := "nbtw err"
+		if err == nil {
+			line = fmt.Sprintf("nbtw %s %d", hexs(all), n)
+		}
+		o.Case(cat, len(all) > 1, cl, line)
+		if err != nil || int(n) != len(all) {
+			o.Fail("C06.count.write", "type=nbt (chunked writer) n=%d bytes=%d err=%v", n, len(all), err)
+		}
+		return all
+	}
+	emitR := func(cat string, img, tail []byte, cut int) {
+		in := append(append([]byte{}, img[:len(img)-cut]...), tail...)
+		var back nbtSample
+		rd := bytes.NewReader(in)
+		var nn int64
+		var err error
+		p := hx.Try(func() { nn, err = pk.NBTField{V: &back}.ReadFrom(rd) })
+		line := "nbtr " + outcome(p, err)
+		if p == "" && err == nil {
+			line = fmt.Sprintf("nbtr ok %d %d", nn, rd.Len())
+			if int(nn) != len(in)-rd.Len() {
+				o.Fail("C06.count.read", "type=nbt n=%d consumed=%d", nn, len(in)-rd.Len())
+			}
+		}
+		o.Case(cat, len(img) > 1, fmt.Sprintf("nbtr %s %s %d", hexs(img), hexs(tail), cut), line)
+	}
+	img := emitW("nbtw.nil", nil)
+	for _, tl := range [][]byte{nil, {9}, {0, 0, 7}} {
+		emitR("nbtr.end", img, tl, 0)
+	}
+	emitR("nbtr.end.empty", img, nil, 1)
+	for i := 0; i < o.N(60, 10); i++ {
+		v := nbtSample{A: int32(r.Next()), B: string(hexs(r.Bytes(r.Intn(6)))), D: map[string]int8{"k": int8(r.Next())}}
+		for j := r.Intn(4); j > 0; j-- {
+			v.C = append(v.C, int64(r.Next()))
+		}
+		v.E.X = float64(r.Intn(1000)) / 8
+		img := emitW("nbtw.value", v)
+		emitR("nbtr.value", img, r.Bytes(r.Intn(4)), 0)
+		if len(img) > 2 {
+			emitR("nbtr.truncated", img, nil, 1+r.Intn(len(img)-1))
+		}
+	}
+}
+
 // Marshal / Builder / Scan: fields in order; Scan ignores what is left
 func packets(o *hx.Out, r *hx.Rng, all []Ty) {
 	for i := 0; i < o.N(1500, 10); i++ {
@@ -1528,6 +1603,7 @@ func main() {
 	pluginData(o, r)
 	nbtField(o, r)
 	packets(o, r, all)
+	nbtFieldModel(o, r)
 	o.Note("hostile-count inputs skipped (C08): %d", skippedHostile)
 	o.Note("NBT fields: predicate only (codec modelled under C01/C02); FixedBitSet and PluginMessageData: separate ops (size / extent come from the context)")
 }
